@@ -63,7 +63,14 @@ def totals_unit(shape, per_obs):
             else:
                 vals = {nm: z3.Const(f"val_{nm}", U) for nm in STRONG[shape]}
             exp = expected(ip, shape, vals)
-            prob, lik, prior = [to_sort(ip.getattr(model, a), Real) for a in ("log_prob", "log_lik", "log_prior")]
+            raw = [ip.getattr(model, a) for a in ("log_prob", "log_lik", "log_prior")]
+            if any(is_z3(r) and r.sort() == U for r in raw):
+                # a total that is an ARRAY-valued term (a log-density entered the sum without being reduced) is not the scalar sum of the log-densities;
+                # structural: reported only when the native stand-in fails too
+                for nm in ("log_prob_is_joint_density", "log_lik_is_observed_part", "log_prior_is_parameter_part", "decomposition"):
+                    c.oblige(f"{phase}.{nm}", False, structural=True, note="a total is array-valued: " + ", ".join(str(r)[:80] for r in raw))
+                continue
+            prob, lik, prior = [to_sort(r, Real) for r in raw]
             c.oblige(f"{phase}.log_prob_is_joint_density", prob == sum(t for _, t in exp.values()))
             c.oblige(f"{phase}.log_lik_is_observed_part", lik == sum((t for fl, t in exp.values() if fl == "observed"), z3.RealVal(0)))
             c.oblige(f"{phase}.log_prior_is_parameter_part", prior == sum((t for fl, t in exp.values() if fl == "parameter"), z3.RealVal(0)))
@@ -106,7 +113,12 @@ def outside_assignment_unit(shape):
                 model = ip.call(method(ip, gb2, "build_model"), [], {})
             vals = {nm: z3.Const(f"{prefix}_{nm}", U) for nm in STRONG[shape]}
             exp = expected(ip, shape, vals)
-            prob, lik, prior = [to_sort(ip.getattr(model, a), Real) for a in ("log_prob", "log_lik", "log_prior")]
+            raw = [ip.getattr(model, a) for a in ("log_prob", "log_lik", "log_prior")]
+            if any(is_z3(r) and r.sort() == U for r in raw):  # array-valued total, see totals_unit
+                for nm in ("log_prob_is_joint_density", "log_lik_is_observed_part", "log_prior_is_parameter_part"):
+                    c.oblige(f"{phase}.{nm}", False, structural=True, note="a total is array-valued: " + ", ".join(str(r)[:80] for r in raw))
+                continue
+            prob, lik, prior = [to_sort(r, Real) for r in raw]
             c.oblige(f"{phase}.log_prob_is_joint_density", prob == sum(t for _, t in exp.values()))
             c.oblige(f"{phase}.log_lik_is_observed_part", lik == sum((t for fl, t in exp.values() if fl == "observed"), z3.RealVal(0)))
             c.oblige(f"{phase}.log_prior_is_parameter_part", prior == sum((t for fl, t in exp.values() if fl == "parameter"), z3.RealVal(0)))
@@ -298,6 +310,33 @@ def u_auto(ip):
     c.oblige("log_prob_is_sum", to_sort(ip.getattr(model, "log_prob"), Real) == lik + prior)
 
 
+def distreg_builder(ip, int_rank=False):
+    """a REAL DistRegBuilder with a response, two predictors, two parametric and one non-parametric smooth (data, penalty and hyper-parameters symbolic)"""
+    c = ip.ctx
+    install_graph_models(ip)
+    from contracts.graph import dist_fn, bijector_class, install_tfp_models
+    install_tfp_models(ip)
+    ip.models["collections.defaultdict"] = lambda ip_, factory=None: DefaultDict(ip_, factory)
+    ip.models["numpy.zeros"] = lambda ip_, shape, dtype=None: ip_.uf("zeros", ip_.to_U(shape))
+    ip.models["numpy.shape"] = lambda ip_, x: (ip_.uf("dim0", ip_.to_U(x), sort=Int), ip_.uf("dim1", ip_.to_U(x), sort=Int))
+    ip.opaque_attr["shape"] = lambda ip_, v: (ip_.uf("dim0", v, sort=Int), ip_.uf("dim1", v, sort=Int))
+    # (int_rank: the rank as an INTEGER term - code that compares it with the dimension forks into the full-rank and the rank-deficient case)
+    ip.models["numpy.linalg.matrix_rank"] = (lambda ip_, K: ip_.uf("matrix_rank", ip_.to_U(K), sort=Int)) if int_rank else (lambda ip_, K: ip_.uf("matrix_rank", ip_.to_U(K)))
+    ip.models["opaque_binop"] = lambda ip_, op, a, b: ip_.uf("op_" + op, ip_.to_U(a), ip_.to_U(b))
+    for nm in ("Normal", "InverseGamma"):
+        ip.models[f"tensorflow_probability.substrates.jax.distributions.{nm}"] = (lambda fam: lambda ip_, *a, **k: ip_.call(dist_fn(fam), list(a), k))(nm)
+    ip.summaries["liesel/distributions/mvn_degen.py::MultivariateNormalDegenerate.from_penalty"] = lambda ip_, args, kwargs: ip_.call(dist_fn("MVNDegen"), [], {k: v for k, v in kwargs.items()})
+    B = ip.repo("liesel/model/distreg.py::DistRegBuilder")
+    b = ip.call(B, [], {})
+    ip.call(method(ip, b, "add_response"), [z3.Const("y_data", U), dist_fn("Resp")], {})
+    ip.call(method(ip, b, "add_predictor"), ["loc", bijector_class(ip, "Identity")], {})
+    ip.call(method(ip, b, "add_predictor"), ["scale", bijector_class(ip, "Exp")], {})
+    ip.call(method(ip, b, "add_p_smooth"), [z3.Const("X1", U), 0.0, 10.0, "loc"], {})
+    ip.call(method(ip, b, "add_np_smooth"), [z3.Const("X2", U), z3.Const("K2", U), 1.0, 0.5, "loc"], {})
+    ip.call(method(ip, b, "add_p_smooth"), [z3.Const("X3", U), 0.0, 3.0, "scale"], {})
+    return b
+
+
 @unit("C02.distreg_builder", "C02", ["liesel/model/distreg.py::DistRegBuilder.add_response", "liesel/model/distreg.py::DistRegBuilder.add_predictor",
                                      "liesel/model/distreg.py::DistRegBuilder.add_p_smooth", "liesel/model/distreg.py::DistRegBuilder.add_np_smooth",
                                      "liesel/model/distreg.py::DistRegBuilder._smooth_name", "liesel/model/legacy.py::Smooth", "liesel/model/legacy.py::Predictor", f"{M}::GraphBuilder.build_model"],
@@ -308,26 +347,7 @@ def u_distreg(ip):
     (regression coefficients, smoothing variance); design matrices and hyperparameters carry no distribution; hence
     log_prob = log_lik + log_prior, and each total is the sum of the corresponding log-densities."""
     c = ip.ctx
-    install_graph_models(ip)
-    from contracts.graph import dist_fn, bijector_class, install_tfp_models
-    install_tfp_models(ip)
-    ip.models["collections.defaultdict"] = lambda ip_, factory=None: DefaultDict(ip_, factory)
-    ip.models["numpy.zeros"] = lambda ip_, shape, dtype=None: ip_.uf("zeros", ip_.to_U(shape))
-    ip.models["numpy.shape"] = lambda ip_, x: (ip_.uf("dim0", ip_.to_U(x), sort=Int), ip_.uf("dim1", ip_.to_U(x), sort=Int))
-    ip.models["numpy.linalg.matrix_rank"] = lambda ip_, K: ip_.uf("matrix_rank", ip_.to_U(K))
-    ip.models["opaque_binop"] = lambda ip_, op, a, b: ip_.uf("op_" + op, ip_.to_U(a), ip_.to_U(b))
-    for nm in ("Normal", "InverseGamma"):
-        ip.models[f"tensorflow_probability.substrates.jax.distributions.{nm}"] = (lambda fam: lambda ip_, *a, **k: ip_.call(dist_fn(fam), list(a), k))(nm)
-    MVN = ip.repo("liesel/distributions/mvn_degen.py::MultivariateNormalDegenerate")
-    ip.summaries["liesel/distributions/mvn_degen.py::MultivariateNormalDegenerate.from_penalty"] = lambda ip_, args, kwargs: ip_.call(dist_fn("MVNDegen"), [], {k: v for k, v in kwargs.items()})
-    B = ip.repo("liesel/model/distreg.py::DistRegBuilder")
-    b = ip.call(B, [], {})
-    ip.call(method(ip, b, "add_response"), [z3.Const("y_data", U), dist_fn("Resp")], {})
-    ip.call(method(ip, b, "add_predictor"), ["loc", bijector_class(ip, "Identity")], {})
-    ip.call(method(ip, b, "add_predictor"), ["scale", bijector_class(ip, "Exp")], {})
-    ip.call(method(ip, b, "add_p_smooth"), [z3.Const("X1", U), 0.0, 10.0, "loc"], {})
-    ip.call(method(ip, b, "add_np_smooth"), [z3.Const("X2", U), z3.Const("K2", U), 1.0, 0.5, "loc"], {})
-    ip.call(method(ip, b, "add_p_smooth"), [z3.Const("X3", U), 0.0, 3.0, "scale"], {})
+    b = distreg_builder(ip)
     model = ip.call(method(ip, b, "build_model"), [], {})
     V = model.f["_vars"]
     with_dist = {n: v for n, v in V.items() if ip.getattr(v, "has_dist")}
